@@ -16,6 +16,20 @@ use crate::{
 pub enum Reg {
     Add,
     Ty(u8),
+    /// the same actor registered under both message types
+    Both,
+    /// held with add_child and, in addition, registered under this type
+    AddTy(u8),
+}
+
+impl Reg {
+    fn receives(self, ty: u8) -> bool {
+        match self {
+            Reg::Add => false,
+            Reg::Ty(t) | Reg::AddTy(t) => t == ty,
+            Reg::Both => true,
+        }
+    }
 }
 
 #[derive(Clone, Copy, Debug)]
@@ -93,11 +107,19 @@ impl Scene for S {
             let mut actions = vec![];
             for c in self.children_of(n.role) {
                 let a = addrs[c.role as usize].clone().expect("child spawned before parent");
-                let key = store_put(Stored::Addr(a));
-                actions.push(match c.reg {
-                    Reg::Add => Action::AddChild { key },
-                    Reg::Ty(ty) => Action::RegisterChild { key, ty },
-                });
+                let mut key = || store_put(Stored::Addr(a.clone()));
+                match c.reg {
+                    Reg::Add => actions.push(Action::AddChild { key: key() }),
+                    Reg::Ty(ty) => actions.push(Action::RegisterChild { key: key(), ty }),
+                    Reg::Both => {
+                        actions.push(Action::RegisterChild { key: key(), ty: 1 });
+                        actions.push(Action::RegisterChild { key: key(), ty: 2 });
+                    }
+                    Reg::AddTy(ty) => {
+                        actions.push(Action::AddChild { key: key() });
+                        actions.push(Action::RegisterChild { key: key(), ty });
+                    }
+                }
             }
             if self.child_timers && n.parent.is_some() {
                 actions.push(Action::IntervalWith { timer: 8, period: 3 });
@@ -276,7 +298,7 @@ impl Scene for S {
             let delivered_by_root = an.exit_of_msg(0, *id).is_some() || goodbye == Some((*ty, *id));
             for n in self.nodes.iter().filter(|n| n.parent.is_some()) {
                 let got = an.enters.iter().filter(|e| e.a == n.role && e.cb == (Cb::Bcast { ty: *ty, id: *id })).count();
-                let want = usize::from(delivered_by_root && n.parent == Some(0) && n.reg == Reg::Ty(*ty));
+                let want = usize::from(delivered_by_root && n.parent == Some(0) && n.reg.receives(*ty));
                 if n.outside_stops {
                     // may or may not have been alive when the broadcast reached it
                     if got > 1 {
@@ -340,7 +362,7 @@ pub fn causes(tier: Tier) -> Vec<Cause> {
 fn tree_name(nodes: &[Node]) -> String {
     nodes
         .iter()
-        .map(|n| format!("{}<-{}{}{}{}", n.role, n.parent.map(|p| p.to_string()).unwrap_or("-".into()), match n.reg { Reg::Add => "a".into(), Reg::Ty(t) => format!("t{t}") }, if n.outside { "o" } else { "" }, if n.outside_stops { "x" } else { "" }))
+        .map(|n| format!("{}<-{}{}{}{}", n.role, n.parent.map(|p| p.to_string()).unwrap_or("-".into()), match n.reg { Reg::Add => "a".into(), Reg::Ty(t) => format!("t{t}"), Reg::Both => "t1t2".into(), Reg::AddTy(t) => format!("at{t}") }, if n.outside { "o" } else { "" }, if n.outside_stops { "x" } else { "" }))
         .collect::<Vec<_>>()
         .join(",")
 }
@@ -357,6 +379,9 @@ fn base_cases(tier: Tier) -> Vec<Case> {
         vec![root, n(1, 0, Reg::Ty(1), false), n(2, 0, Reg::Ty(2), false)],
         vec![root, n(1, 0, Reg::Ty(1), false), n(2, 0, Reg::Ty(1), true)],
         vec![root, n(1, 0, Reg::Add, false), n(2, 0, Reg::Ty(2), false)],
+        // one actor held twice by the same parent: under both types, or plainly and under a type
+        vec![root, n(1, 0, Reg::Both, false), n(2, 0, Reg::Ty(2), false)],
+        vec![root, n(1, 0, Reg::AddTy(2), false), n(2, 0, Reg::Ty(1), true)],
         // a child that is stopped from outside while the parent lives, with siblings of the same type
         vec![root, dying(1, 0, Reg::Ty(1)), n(2, 0, Reg::Ty(1), false)],
         vec![root, n(1, 0, Reg::Ty(1), false), dying(2, 0, Reg::Ty(1)), n(3, 0, Reg::Ty(1), false)],
@@ -376,6 +401,12 @@ fn base_cases(tier: Tier) -> Vec<Case> {
         for cause in causes(tier) {
             for bc in &bsets {
                 for &mb in mbs {
+                    // (quick tier: the trees with a child held twice by its parent are about the
+                    // broadcast tables - two broadcasts of different types, graceful ends)
+                    let twice = tree.iter().any(|n| matches!(n.reg, Reg::Both | Reg::AddTy(_)));
+                    if twice && tier == Tier::Quick && !(matches!(cause, Cause::StopClient | Cause::LastDrop) && bc.iter().any(|b| b.0 == 2)) {
+                        continue;
+                    }
                     let big = tree.len() >= 3;
                     v.push(Case {
                         desc: format!("children tree={} cause={:?} bcasts={:?} mailbox={}", tree_name(tree), cause, bc, mb.name()),
